@@ -266,7 +266,9 @@ pub fn replay_api(ctx: &mut Ctx, case: &Value, oracle: Oracle, prop_tag: &str) {
         let _ = discover_api(ctx, &syms, oracle, prop_tag);
         return;
     }
-    let sp = if how == "interned" {
+    let sp = if how == "foreign" {
+        Space::<usize>::by_foreign(&syms)
+    } else if how == "interned" {
         match Space::<usize>::by_interning(&syms) {
             Ok(s) => s,
             Err(e) => {
@@ -595,6 +597,155 @@ pub fn replay_eval(ctx: &mut Ctx, case: &Value, oracle: Oracle, prop_tag: &str) 
         let tts: Vec<u64> = case["operands"].as_array().map(|a| a.iter().map(|x| x.as_u64().unwrap_or(0)).collect()).unwrap_or_default();
         if tts.iter().all(|t| es.sp.has(*t)) {
             check_eval(ctx, &mut es, &op, &tts, oracle, prop_tag);
+        }
+    }
+}
+
+// =======================================================================================
+// structured family over 6 variables (deeper diagrams than the complete spaces can hold)
+
+/// a fixed family of functions of 6 variables: constants, literals, thresholds, exact
+/// counts, parities, all functions of three variable pairs, all 64 minterms, aligned
+/// intervals of the assignment order, and 32 fixed pseudo-random tables
+pub fn family6() -> Vec<u64> {
+    let k = 6;
+    let mut out: Vec<u64> = vec![0, !0];
+    let mut push = |t: u64, out: &mut Vec<u64>| {
+        if !out.contains(&t) {
+            out.push(t);
+        }
+    };
+    let v: Vec<u64> = (0..k).map(|i| crate::refl::var_tt(k, i)).collect();
+    for x in &v {
+        push(*x, &mut out);
+        push(!*x, &mut out);
+    }
+    for t in 0..=6u32 {
+        let mut ge = 0u64;
+        let mut eq = 0u64;
+        for a in 0..64u32 {
+            if a.count_ones() >= t {
+                ge |= 1 << a;
+            }
+            if a.count_ones() == t {
+                eq |= 1 << a;
+            }
+        }
+        push(ge, &mut out);
+        push(eq, &mut out);
+    }
+    let mut par = 0u64;
+    for a in 0..64u32 {
+        if a.count_ones() % 2 == 1 {
+            par |= 1 << a;
+        }
+    }
+    push(par, &mut out);
+    push(!par, &mut out);
+    for (i, j) in [(0usize, 5usize), (2, 3), (1, 4)] {
+        for f in 0..16u64 {
+            let mut t = 0u64;
+            for a in 0..64usize {
+                let bi = (a >> i) & 1;
+                let bj = (a >> j) & 1;
+                if (f >> (bi + 2 * bj)) & 1 == 1 {
+                    t |= 1 << a;
+                }
+            }
+            push(t, &mut out);
+        }
+    }
+    for a in 0..64 {
+        push(1u64 << a, &mut out);
+    }
+    for lo in (0..64).step_by(8) {
+        for hi in ((lo + 8)..=64).step_by(8) {
+            let h = if hi == 64 { !0u64 } else { (1u64 << hi) - 1 };
+            push(h & !((1u64 << lo) - 1), &mut out);
+        }
+    }
+    let mut x = 0x9e3779b97f4a7c15u64;
+    for _ in 0..32 {
+        x ^= x << 13;
+        x ^= x >> 7;
+        x ^= x << 17;
+        push(x, &mut out);
+    }
+    out
+}
+
+/// every binary connective and `not` on every pair of the 6-variable family, `ite` on every
+/// triple of a 40-member sub-family; operands are interned canonical diagrams
+pub fn sweep_family6(ctx: &mut Ctx, oracle: Oracle, prop_tag: &str) {
+    let syms = [0usize, 2, 3, 5, 8, 13];
+    let sp = Space::<usize>::empty(&syms);
+    let fam = family6();
+    let mut hs: Vec<Rc<BDD<usize>>> = vec![];
+    for t in &fam {
+        let c = sp.canon(*t);
+        match guarded(|| sp.intern(&c)) {
+            Ok(h) if *h == *c => hs.push(h),
+            _ => {
+                ctx.violation(format!("{prop_tag} family6: building operands"), format!("mk_choice did not reproduce the canonical diagram of {t:#x}"), json!({"part": "family6", "op": "not", "operands": [0]}));
+                return;
+            }
+        }
+    }
+    ctx.global("family6_members", fam.len() as u64);
+    let mut idx = 0u64;
+    let mut one = |ctx: &mut Ctx, op: ApiOp, ix: &[usize]| {
+        let tts: Vec<u64> = ix.iter().map(|i| fam[*i]).collect();
+        let case = || json!({"part": "family6", "op": op.name(), "operands": ix});
+        ctx.begin_case(case);
+        ctx.count("transitions", 1);
+        ctx.count("distinct_by_construction", 1);
+        let want = op.expect(&tts, sp.full);
+        let ops: Vec<Rc<BDD<usize>>> = ix.iter().map(|i| hs[*i].clone()).collect();
+        let key = || format!("{prop_tag} family6 syms={:?}: {}({})", syms, op.name(), tts.iter().map(|t| format!("{t:#x}")).collect::<Vec<_>>().join(", "));
+        match guarded(|| apply_api(&sp, op, &ops)) {
+            Err(p) => ctx.violation(key(), format!("operation panicked: {p}"), case()),
+            Ok(res) => {
+                let c = judge(&sp, &res, want, oracle);
+                if !c.is_empty() {
+                    ctx.violation(key(), c.join("; "), case());
+                }
+            }
+        }
+    };
+    for i in 0..fam.len() {
+        idx += 1;
+        if ctx.mine(idx) {
+            one(ctx, ApiOp::Not, &[i]);
+        }
+        for j in 0..fam.len() {
+            idx += 1;
+            if ctx.mine(idx) {
+                for b in ALL_BINS {
+                    one(ctx, ApiOp::Bin(b), &[i, j]);
+                }
+            }
+        }
+    }
+    let sub: Vec<usize> = (0..fam.len()).step_by((fam.len() / 40).max(1)).collect();
+    for &a in &sub {
+        for &b in &sub {
+            idx += 1;
+            if ctx.mine(idx) {
+                for &c in &sub {
+                    one(ctx, ApiOp::Ite, &[a, b, c]);
+                }
+            }
+        }
+    }
+}
+
+pub fn replay_family6(ctx: &mut Ctx, case: &Value, oracle: Oracle, prop_tag: &str) {
+    // re-run the (small) family sweep and keep the recorded case
+    let mut c2 = Ctx::new(prop_tag, ctx.tier, ctx.seed, 0, 1);
+    sweep_family6(&mut c2, oracle, prop_tag);
+    for v in c2.violations {
+        if v.replay["op"] == case["op"] && v.replay["operands"] == case["operands"] {
+            ctx.violation(v.key, v.what, v.replay);
         }
     }
 }
